@@ -471,6 +471,7 @@ func runC05(c *Ctx) {
 	}
 	c.Check(fname(sv)+"#payload-binds-kind", sv.Pos(), hasKind, ifelse(hasKind, "the signed payload includes the vote kind", "the signed payload is hash‖round‖index without the vote kind: an honest prevote for A and precommit for B in one round/index verify as double-sign evidence"))
 	c05RoundE(c, c.W)
+	c05KindGate(c, c.W)
 }
 
 func ownerNameOfField(w *World, f *types.Var) string { return fieldOwner(w, f) }
@@ -870,5 +871,59 @@ func c05RoundE(c *Ctx, w *World) {
 			}
 			c.Check(fname(pe)+"#one-penalised-set", first.Pos(), ok, ifelse(ok, "one set, made once before the loop, reaches every evidence handler", why+": the same equivocation filed twice in one block is penalised twice"))
 		}
+	}
+}
+
+// c05KindGate (D12): only kinds that are cast once per round index can be double-signed.
+func c05KindGate(c *Ctx, w *World) {
+	c.Rule("C05.D12", "GATE", "no evidence that can be assembled from an honest validator's votes is accepted: a validator legitimately casts TWO next-index votes for different hashes in one round index (the empty hash on its timer, then the block that reaches the prevote quorum; alreadyVoted allows 2 on purpose, and the engine's own detector skips next-index votes), so processDoubleSignV5 penalises only evidence whose vote kind is one that is cast at most once — the penalty (doPenalize) is reached only on paths that established VoteType == Prevote, Precommit or Certificate")
+	c.Min(1)
+	pd := w.Fn("staking", "Staking", "processDoubleSignV5")
+	c.sawFunc(fname(pd))
+	allowed := map[int64]string{}
+	for _, name := range []string{"Prevote", "Precommit", "Certificate"} {
+		if cv := constOf(w, "staking", name); cv != nil {
+			if k, ok := constant.Int64Val(constant.ToInt(cv)); ok {
+				allowed[k] = name
+			}
+		}
+	}
+	isKind := func(v ssa.Value) bool {
+		f, _ := loadedField(stripConvNoBind(v))
+		return f != nil && f.Name() == "VoteType"
+	}
+	n := 0
+	for _, ci := range callInstrs(pd) {
+		o := calleeObj(ci)
+		if o == nil || o.Name() != "doPenalize" {
+			continue
+		}
+		n++
+		c.sites++
+		cons := fmt.Sprintf("%s#penalty-%d-only-for-once-per-index-kinds", fname(pd), n)
+		ok := len(allowed) == 3 && allPathsPassEdge(pd, ci.Block(), func(from, to *ssa.BasicBlock) bool {
+			f, isIf := edgeFact(from, to)
+			if !isIf {
+				return false
+			}
+			for _, a := range atomsOf([]Fact{f}) {
+				if a.Kind != "eq" || !a.Truth {
+					continue
+				}
+				for _, pair := range [][2]ssa.Value{{a.X, a.Y}, {a.Y, a.X}} {
+					if !isKind(pair[0]) || pair[1] == nil {
+						continue
+					}
+					if k, isK := constInt(stripConvNoBind(pair[1])); isK && allowed[k] != "" {
+						return true
+					}
+				}
+			}
+			return false
+		})
+		c.Check(cons, ci.Pos(), ok, ifelse(ok, "every path to the penalty passes a test that found the vote kind to be Prevote, Precommit or Certificate", "the penalty is reachable without the evidence's vote kind having been found to be Prevote, Precommit or Certificate: the two next-index votes an honest validator casts in one round index (empty hash, then the quorum block) are accepted as a double sign — 2 % of its tokens, offline, expelled"))
+	}
+	if n == 0 {
+		c.Undecided(fname(pd)+"#penalty", pd.Pos(), "no doPenalize call found in processDoubleSignV5")
 	}
 }
